@@ -1,28 +1,54 @@
 """C08 -- cancel stops the named tasks and nothing else.
-Scheduler side: the real scheduler loop with cancel requests placed between any
-two steps (waiting tasks, tasks met later at intake or after wait-pool insertion).
-Executor side: see harness/execlib.py (running tasks, tasks met at executor intake)."""
+
+Scheduler side (kind 'sched'): the real scheduler loop with cancel requests placed
+between any two steps and in the middle of the queue drain (waiting tasks, tasks
+met later at intake or after wait-pool insertion).
+Executor side (kind 'exec'): the real Popen executor threads under the
+line-granular scheduler of harness/execlib.py (running tasks are killed and
+handed on once as CANCELED with one unschedule message, tasks met at the
+executor's intake are canceled there, bystanders keep their outcome)."""
 from . import schedlib as SL
+from . import execlib as X
 from .c01 import SchedProp
+from .core import rp_import
+
+SCHED_CLAUSES = ['named_waiting_task_leaves_pool_canceled', 'only_named_tasks_canceled',
+                 'named_task_met_later_never_started', 'named_task_never_started_after_request_consumed']
+EXEC_CLAUSES = ['exec:' + c for c in X.C08_EXEC_CLAUSES]
 
 
 class C08(SchedProp):
     id = 'C08'
     module = 'c08'
     props_files = ['Props/C08.v']
+    extra_targets = ['Sched/Oracle.vo', 'Exec/Oracle.vo']
+    model_targets = ['Sched/Oracle.vo', 'Exec/Oracle.vo']
+    header = 'From RP Require Import Sched.Model Sched.Oracle.'
+    exec_header = 'From RP Require Import Exec.Model Exec.Oracle.'
+
+    def header_for(self, case):
+        return self.exec_header if case.get('kind') == 'exec' else self.header
     row_fn = 'c08_sched_row'
     preplaced_share = 0.0
-    clauses = ['named_waiting_task_leaves_pool_canceled', 'only_named_tasks_canceled',
-               'named_task_met_later_never_started', 'named_task_never_started_after_request_consumed']
+    clauses = SCHED_CLAUSES + EXEC_CLAUSES
+    corr_name = ('Sched.Model.run vs the real scheduler loop (cancel queue item, wait pool, intake filter, post-insert '
+                 'check); Exec.Model.run vs the real Popen executor threads (control_cb, cancel_task, intake filter, '
+                 'watcher) under the line-granular thread scheduler')
     rule = ('scheduler histories with a cancel request after ~25% of the operations (named: waiting, running, not yet '
-            'arrived and unknown uids; also requests delivered in the middle of the queue drain), bystander tasks around them; non-trivial = >= 2 tasks held simultaneously and '
-            '>= 1 task waited')
+            'arrived and unknown uids; also requests delivered in the middle of the queue drain), bystander tasks '
+            'around them; executor scenarios of 2-3 tasks with a request for some of them registered at a seed-chosen '
+            'point of the thread schedule (before intake, between placement and launch, while running, after exit); '
+            'non-trivial = scheduler: >= 2 tasks held simultaneously and >= 1 task waited; executor: two threads '
+            'raced for one uid or a launch fault met a request')
+    trusted = SchedProp.trusted + [
+        'executor side: harness/execlib.py (real Popen object without __init__, four real threads under a '
+        'sys.settrace line-granular scheduler, fake subprocess.Popen/os.killpg/clock)']
+    impl_timeout = 1500
 
     def cases(self, rng, tier):
-        n = 260 if tier == 'quick' else 6000
+        n = 200 if tier == 'quick' else 5000
         for i in range(n):
             c = SL.gen_case(rng, size='small' if rng.random() < 0.6 else 'large', preplaced=False, disciplined=True)
-            # more cancels, also for uids that arrive later
             ops = []
             uids = [r['uid'] for o in c['ops'] if o[0] == 'arrive' for r in o[1]]
             prev = None
@@ -36,6 +62,57 @@ class C08(SchedProp):
                 prev = o
             c['ops'] = ops
             yield c
+        for sc in X.gen_cancel_cases(rng, 140 if tier == 'quick' else 2500):
+            yield {'kind': 'exec', 'sc': sc}
+
+    def impl_setup(self):
+        self.rp = rp_import()
+        self.drv = SL.SchedDriver(self.rp)
+
+    def run_impl(self, case):
+        if case['kind'] == 'exec':
+            obs = X.run_case(self.rp, case['sc'])
+            if obs['anomalies']:
+                obs = X.run_case(self.rp, case['sc'])      # timing-sensitive?  once more before reporting
+            return obs
+        return self.drv.run(case)
+
+    def coq_row(self, case, obs):
+        ns, ne = len(SCHED_CLAUSES), len(EXEC_CLAUSES)
+        if case['kind'] == 'exec':
+            r = '(c08_exec_row %s)' % X.coq_row_args(case['sc'], obs)
+            return '(hd false %s :: (repeat true %d%%nat ++ tl %s))' % (r, ns, r)
+        r = SchedProp.coq_row(self, case, obs)
+        return '(%s ++ repeat true %d%%nat)' % (r, ne)
+
+    def model_show(self, case):
+        if case['kind'] == 'exec':
+            from .c07 import PROP as P7
+            return P7.model_show(case['sc'])
+        return SchedProp.model_show(self, case)
+
+    def nontrivial(self, case, obs):
+        if case['kind'] == 'exec':
+            from .c07 import PROP as P7
+            return P7.nontrivial(case['sc'], obs)
+        return SchedProp.nontrivial(self, case, obs)
+
+    def signature(self, case, obs, clause):
+        return clause
+
+    def shrink(self, case):
+        if case['kind'] == 'exec':
+            from .c07 import PROP as P7
+            for sc in P7.shrink(case['sc']):
+                yield {'kind': 'exec', 'sc': sc}
+        else:
+            yield from SchedProp.shrink(self, case)
+
+    def distribution(self, results):
+        s = [r for r in results if r['case']['kind'] == 'sched']
+        d = SchedProp.distribution(self, s)
+        d['executor_cases'] = len(results) - len(s)
+        return d
 
 
 PROP = C08()
